@@ -49,6 +49,10 @@ def menu():
         ("Symbol", P("a"), ("type", BOOL)), ("Symbol", P("x"), ("type", INT)), ("Symbol", P("fresh"), ("type", INT)),
         ("Symbol", P("fresh2"), ("type", REAL)),
         ("TRUE",), ("FALSE",), ("Bool", P(True)),
+        # sorts that differ in structure but print alike: an instance of a parametric sort and a 0-ary sort named after it
+        ("Array", ("type", ("CUSTOM", "Pair", (INT, REAL))), ("Int", P(0))), ("Array", ("type", ("CUSTOM", "Pair{Int, Real}")), ("Int", P(0))),
+        ("Symbol", P("pi"), ("type", ("CUSTOM", "Pair", (INT, REAL)))), ("Symbol", P("pm"), ("type", ("CUSTOM", "Pair{Int, Real}"))),
+        ("Symbol", P("api"), ("type", ("ARRAY", ("CUSTOM", "Pair", (INT, REAL)), INT))), ("Symbol", P("apm"), ("type", ("ARRAY", ("CUSTOM", "Pair{Int, Real}"), INT))),
     ]
 
 
@@ -523,6 +527,53 @@ def _nodes(w, n, out=None):
     return out
 
 
+def copy_clash_cases():
+    """(symbols of the source, term, symbols the target environment has declared before): the target knows a name of the
+    source under another type - the copy is refused or structurally identical, never a look-alike over the target's symbol"""
+    FII, FIR = ("FUN", INT, (INT,)), ("FUN", REAL, (INT,))
+    return [
+        (dict(f=FIR, i=INT, j=INT), ("And", ("LT", ("Function", "f", ("list", "i")), ("Function", "f", ("list", "j"))),
+                                     ("ForAll", ("list", "i"), ("LE", ("Function", "f", ("list", "i")), ("Function", "f", ("list", "j"))))), dict(f=FII)),
+        (dict(f=FIR, i=INT), ("LT", ("Function", "f", ("list", "i")), ("Real", ("py", 1))), dict(f=FIR)),
+        (dict(x=REAL, y=REAL), ("LT", "x", "y"), dict(x=INT)),
+        (dict(x=INT, y=INT), ("ForAll", ("list", "x"), ("LT", "x", "y")), dict(x=BOOL)),
+        (dict(m=("ARRAY", INT, REAL), x=INT), ("LT", ("Select", "m", "x"), ("Real", ("py", 0))), dict(m=("ARRAY", INT, INT))),
+    ]
+
+
+def _copy_clash_job(idx):
+    ssy, t, dsy = copy_clash_cases()[idx]
+    tag = "%s into an environment that declares %s" % (_show(t), ", ".join("%s: %s" % kv for kv in sorted(dsy.items())))
+
+    def one(ex):
+        it = Interp(ex, max_steps=3000000)
+        w = RealMgrWorld().attach(it)
+        dst = (w.env, w.mgr)
+        src = w.new_environment()
+        with w.using(*dst):
+            for n, so in sorted(dsy.items()):
+                w.symbol(n, so)
+        with w.using(*src):
+            syms = dict((n, w.symbol(n, so)) for n, so in sorted(ssy.items()))
+            f = _build(w, syms, t)
+        same_types = all(ssy.get(k) == v for k, v in dsy.items())
+        try:
+            g = it.call(it.getattr(dst[1], "normalize"), [f])
+        except AbsRaise as ex_:
+            if same_types:
+                return ("bad", "clash|%s" % tag, "the copy is refused (%s) although the target declares the name with the same type" % ex_.cls_name)
+            return ("ok", tag, "refused (%s)" % ex_.cls_name)
+        if not w.is_node(g) or _struct(w, g) != _struct(w, f):
+            return ("bad", "clash|%s" % tag, "the copy of %s is %s: a term over the target's own symbol of another type, not a copy"
+                    % (sc_str(w, f), sc_str(w, g) if w.is_node(g) else g))
+        return ("ok", tag, "structurally identical copy")
+    try:
+        paths = Explorer(max_paths=4).run(one)
+    except Unsupported as e:
+        return [("unsupported", tag, str(e))]
+    return [p.value if p.kind == "return" else ("unsupported", tag, "%s %s" % (p.kind, str(p.value)[:200])) for p in paths]
+
+
 def _copy_job(idx):
     t1, t2 = copy_pairs()[idx]
     tag = "%s / %s" % (_show(t1), _show(t2))
@@ -575,6 +626,8 @@ def sc_str(w, n):
 def copy_results():
     out = []
     for r in parallel_map(_copy_job, list(range(len(copy_pairs())))):
+        out.extend(r)
+    for r in parallel_map(_copy_clash_job, list(range(len(copy_clash_cases())))):
         out.extend(r)
     return out
 
